@@ -191,6 +191,9 @@ func mergeASAACLs(ab *cmdsPair, name, prefix string) {
 				break
 			}
 		}
+		if i < 0 {
+			i = 0
+		}
 		acl = append(acl[:i], append(appendACL, acl[i:]...)...)
 	}
 	// Store changed ACL.
@@ -225,6 +228,9 @@ func mergeIOSACLs(ab *cmdsPair, name, prefix string) {
 				i++
 				break
 			}
+		}
+		if i < 0 {
+			i = 0
 		}
 		acl = append(acl[:i], append(appendACL, acl[i:]...)...)
 	}
